@@ -120,6 +120,8 @@ func (propC08) Draw(rt *rapid.T, w *WorldDesc, mode string) *Plan {
 	}
 	p.Sequential = rapid.Bool().Draw(rt, "sequential")
 	p.Schedule = drawSchedule(rt, 64)
+	inflatePayloads(rt, w, p)
+	p.MountPrefix = rapid.SampledFrom([]string{"", "", "", "/gw", "/gateway/tenant-7"}).Draw(rt, "mountPrefix")
 	return p
 }
 
